@@ -6,6 +6,8 @@ def explore(run, lean):
     fabric_corr.explore(run, "C06", 200 if run.tier == "quick" else 4000)
     fabric_corr.explore_fine(run, "C06", 60 if run.tier == "quick" else 1500)
     fabric_corr.explore_subscribe_race(run, 60 if run.tier == "quick" else 1500)
+    for _ in range(1 if run.tier == "quick" else 6):
+        fabric_corr.explore_many_subscribers(run, "C06")
     run.extra["rule"] = ("(a) scenarios: 1-4 subscriber queues (plain deques and active-object LockingDeques, several of them empty = equal "
                          "contents), one or two client threads issuing subscribe/publish/start/stop/clear/is_alive (start/stop/clear "
                          "from one thread only); half of them structured (subscribe*, publish* before the first start = maximal "
@@ -13,7 +15,7 @@ def explore(run, lean):
                          "replayed on the Lean model and compared per step and on the final registry, queue contents, thread counts; "
                          "(b) fine-grained stream (implementation-side oracle only: the model delivers one publication atomically): subscriber deques are scheduling points, a second client re-subscribes registered queues while a publication is being delivered: every queue receives every publication exactly once")
     run.assumptions.append("queue.PriorityQueue.get returns the minimum for FabricEvent.__lt__; GIL atomicity of each Queue primitive")
-    ROUND6_RULE = '; scenarios whose signals are names the library uses internally (STOP_FABRIC_SIGNAL, meta signals, ...)'
+    ROUND6_RULE = '; scenarios whose signals are names the library uses internally (STOP_FABRIC_SIGNAL, meta signals, ...); 501-600 subscriber queues on one signal'
     run.extra["rule"] += ROUND6_RULE
 
 
